@@ -27,6 +27,11 @@ def run(tier):
                  fault=4, persistent=True, bug="swallow_close", invs=["C16_Reported"], expect="violated")
     rng = random.Random(chk.seed * 23 + 16)
     scs = exporter_scenarios(rng, tier, recover=True)
+    # a rotation whose argument is of the other kind than the constructor's (a name for a descriptor exporter): whatever the
+    # library makes of it, a write that is rejected while the call closes the old output is reported by the call
+    for i, (kind, n) in enumerate([("fd", 3), ("fd", 300), ("file", 3)] + ([("fd", 40), ("file", 150)] if tier == "thorough" else [])):
+        scs.append({"id": 1900 + i, "target": "exporter", "comp": "none", "kind": kind, "max": 10000, "pre": [],
+                    "steps": [{"op": "rec", "n": n}, {"op": "rot", "export": True, "mismatch": True}, {"op": "rec", "n": 2}, {"op": "wb"}]})
     m = run_scenarios(chk, "c16", scs, {"C16"}, "c16")
     chk.evaluations = m["events"]
     chk.distinct = m["execs"]
